@@ -11,6 +11,25 @@ import (
 )
 
 func main() {
+	if len(os.Args) > 2 && os.Args[1] == "splitq" {
+		// debugging aid: split the goal of a dumped query into its conjuncts
+		b, _ := os.ReadFile(os.Args[2])
+		q := string(b)
+		k := strings.LastIndex(q, "(assert ")
+		tail := strings.TrimSpace(q[k:])
+		tail = strings.TrimSuffix(strings.TrimSpace(strings.TrimSuffix(tail, "(check-sat)")), ")")
+		neg := strings.TrimPrefix(tail, "(assert ")
+		goal := "(not " + neg + ")"
+		if strings.HasPrefix(neg, "(not ") {
+			goal = neg[5 : len(neg)-1]
+		}
+		for i, p := range splitGoal(goal) {
+			f := fmt.Sprintf("%s.part%02d.smt2", os.Args[2], i)
+			os.WriteFile(f, []byte(q[:k]+"(assert (not "+p+"))\n(check-sat)\n"), 0o644)
+			fmt.Println(f, len(p))
+		}
+		return
+	}
 	if len(os.Args) > 1 && os.Args[1] == "check" {
 		fs := flag.NewFlagSet("check", flag.ExitOnError)
 		o := checkOpts{}
